@@ -209,12 +209,27 @@ class Obj(object):
 
 
 class SymDict(object):
-    """Mapping with unknown contents (sys.modules): membership forks, lookups give Unknown."""
+    """Mapping with unknown contents (sys.modules): membership forks, lookups give the entry's stand-in."""
     def __init__(self, label):
         self.label = label
 
     def __repr__(self):
         return 'SymDict(%s)' % self.label
+
+
+class ModStub(object):
+    """The runtime module object sys.modules[name] (what __import__ leaves there)."""
+    def __init__(self, name):
+        self.name = name
+
+    def __eq__(self, other):
+        return isinstance(other, ModStub) and other.name == self.name
+
+    def __hash__(self):
+        return hash(('ModStub', self.name))
+
+    def __repr__(self):
+        return '<runtime module %s>' % self.name
 
 
 class SymSet(object):
@@ -691,6 +706,12 @@ class Interp(object):
             if type(x).__name__ == 'module':
                 return NativeModule(attr, x)
             return self.wrap_native(x, attr)
+        if isinstance(v, SymDict) and attr == 'get':
+            def sd_get(it, a, k, _d=v):
+                if it.decide(('in', str(a[0]), _d.label)):
+                    return ModStub(str(a[0])) if _d.label == 'sys.modules' else Unknown('%s[%s]' % (_d.label, a[0]))
+                return a[1] if len(a) > 1 else None
+            return Native('SymDict.get', sd_get)
         if isinstance(v, SymSet):
             return Native('symset_' + attr, lambda it, a, k, s=v, at=attr: it.symset_method(s, at, a))
         if isinstance(v, (list, dict, set, str, tuple)):
@@ -746,6 +767,8 @@ class Interp(object):
     def native_method(self, v, attr, args, kwargs):
         try:
             return self._native_method(v, attr, args, kwargs)
+        except AttributeError as e:
+            raise InterpRaise('AttributeError', str(e))
         except (IndexError, KeyError, ValueError) as e:
             # the concrete container/str method raises: that is the interpreted program's exception, not ours
             raise InterpRaise(type(e).__name__, str(e))
@@ -758,7 +781,8 @@ class Interp(object):
                 and attr in ('update', 'extend', 'difference', 'union') else a for a in args]
         if isinstance(v, (list, set, dict)) and attr in ('append', 'add', 'extend', 'update', 'insert',
                                                           'setdefault', 'remove', 'clear', 'pop', 'copy', 'discard',
-                                                          'intersection', 'issubset', 'issuperset', 'count', 'popitem',
+                                                          'intersection', 'issubset', 'issuperset', 'count', 'popitem', 'isdisjoint',
+                                                          'symmetric_difference', 'difference_update', 'intersection_update',
                                                           'get', 'items', 'keys', 'values', 'index',
                                                           'difference', 'union', 'sort'):
             r = getattr(v, attr)(*args, **kwargs)
@@ -989,6 +1013,8 @@ class Interp(object):
 
     def nat___import__(self, args, kwargs):
         self.effect('import', args[0])
+        if isinstance(args[0], str):
+            return ModStub(str(args[0]).partition('.')[0])      # __import__('a.b.c') returns the top-level package a
         return Unknown('module')
 
     def nat_max(self, args, kwargs):
@@ -1094,7 +1120,7 @@ class Interp(object):
     def truth(self, v, node):
         if v is None or isinstance(v, (bool, int, str, list, tuple, dict, set, float)):
             return bool(v)
-        if isinstance(v, (SymNode, Obj, FuncVal, ClassRef, AstClass, LocExpr, Native, _re.Match, _re.Pattern)):
+        if isinstance(v, (SymNode, Obj, FuncVal, ClassRef, AstClass, LocExpr, Native, _re.Match, _re.Pattern, ModStub)):
             return True
         if isinstance(v, Unknown):
             return self.decide(('truth', v.tag))
@@ -1297,6 +1323,8 @@ class Interp(object):
             except KeyError:
                 raise InterpRaise('KeyError', repr(i), e)
         if isinstance(v, SymDict):
+            if v.label == 'sys.modules' and isinstance(i, str):
+                return ModStub(str(i))
             return Unknown('%s[%s]' % (v.label, i))
         if isinstance(v, Obj):
             m = v.cls.lookup('__getitem__')
